@@ -85,3 +85,106 @@ func validConwayBlock() fixBlock {
 	})
 	return validConway
 }
+
+// protoVariantBlocks: the real Shelley-to-Conway fixture blocks with the protocol
+// major version in their header patched to values 1..12 (one byte; no length
+// changes). A block that still belongs to era X while its issuer already
+// signals the next era's protocol version is ordinary on a live chain shortly
+// before a hard fork; the block's type is decided by the era it was made in,
+// not by that number. Variants the ledger decoder refuses for the block's own
+// type are left out.
+var protoVariantsOnce sync.Once
+var protoVariantsList []fixBlock
+
+func cborHead(b []byte) (major byte, arg uint64, n int, ok bool) {
+	if len(b) == 0 {
+		return 0, 0, 0, false
+	}
+	major, low := b[0]>>5, b[0]&0x1f
+	switch {
+	case low < 24:
+		return major, uint64(low), 1, true
+	case low == 24 && len(b) >= 2:
+		return major, uint64(b[1]), 2, true
+	case low == 25 && len(b) >= 3:
+		return major, uint64(b[1])<<8 | uint64(b[2]), 3, true
+	case low == 26 && len(b) >= 5:
+		return major, uint64(b[1])<<24 | uint64(b[2])<<16 | uint64(b[3])<<8 | uint64(b[4]), 5, true
+	}
+	return 0, 0, 0, false
+}
+
+// protoMajorOffset returns the offset of the one-byte protocol major version in
+// a Shelley-family (15-field header body) or Praos (10-field) block, or -1.
+func protoMajorOffset(b []byte) int {
+	off := 0
+	for i := 0; i < 2; i++ { // block array, header array
+		m, _, n, ok := cborHead(b[off:])
+		if !ok || m != 4 {
+			return -1
+		}
+		off += n
+	}
+	m, fields, n, ok := cborHead(b[off:])
+	if !ok || m != 4 {
+		return -1
+	}
+	off += n
+	skip := 0
+	switch fields {
+	case 15:
+		skip = 13
+	case 10:
+		skip = 9
+	default:
+		return -1
+	}
+	for i := 0; i < skip; i++ {
+		l, err := cborItemLen(b[off:])
+		if err != nil {
+			return -1
+		}
+		off += l
+	}
+	if fields == 10 {
+		if off >= len(b) || b[off] != 0x82 {
+			return -1
+		}
+		off++
+	}
+	if off >= len(b) || b[off] >= 24 {
+		return -1
+	}
+	return off
+}
+
+func protoVariantBlocks() []fixBlock {
+	protoVariantsOnce.Do(func() {
+		for _, fb := range fixBlocks()[:7] {
+			if fb.Byron {
+				continue
+			}
+			off := protoMajorOffset(fb.Data)
+			if off < 0 {
+				panic("harness: cannot locate the protocol version in fixture " + fb.Era)
+			}
+			for major := byte(1); major <= 12; major++ {
+				if fb.Data[off] == major {
+					continue
+				}
+				data := append([]byte(nil), fb.Data...)
+				data[off] = major
+				b, err := ledger.NewBlockFromCbor(fb.Type, data, lcommon.VerifyConfig{SkipBodyHashValidation: true})
+				if err != nil || uint(b.Type()) != fb.Type {
+					continue
+				}
+				h := b.Hash().Bytes()
+				protoVariantsList = append(protoVariantsList, fixBlock{Era: fb.Era + "-other-protocol-major", Type: fb.Type, Data: data, Hash: h, Slot: b.SlotNumber(), Point: pcommon.NewPoint(b.SlotNumber(), h)})
+			}
+		}
+		if len(protoVariantsList) == 0 {
+			panic("harness: no protocol-version variants could be built")
+		}
+	})
+	return protoVariantsList
+}
